@@ -142,12 +142,21 @@ theorem create_state (s : State) (r : Req) :
     by_cases hp : supiAccepted r.supi = true
     · right
       simp only [hp, not_true_eq_false, if_false]
-      refine ⟨_, rfl, trivial, ?_, ?_⟩
-      · cases hu : findUe s.ues r.supi with
-        | none => rfl
-        | some ue => simp only; exact findUe_supi hu
-      · unfold groupsOf
-        cases hu : findUe s.ues r.supi <;> rfl
+      by_cases hb : r.bad = true
+      · simp only [hb, if_true]
+        refine ⟨_, rfl, trivial, ?_, ?_⟩
+        · cases hu : findUe s.ues r.supi with
+          | none => rfl
+          | some ue => simp only; exact findUe_supi hu
+        · unfold groupsOf
+          cases hu : findUe s.ues r.supi <;> rfl
+      · simp only [hb, Bool.false_eq_true, if_false]
+        refine ⟨_, rfl, trivial, ?_, ?_⟩
+        · cases hu : findUe s.ues r.supi with
+          | none => rfl
+          | some ue => simp only; exact findUe_supi hu
+        · unfold groupsOf
+          cases hu : findUe s.ues r.supi <;> rfl
     · left; simp [hp]
 
 theorem recharge_state (s : State) (info : Bytes) :
@@ -494,7 +503,9 @@ theorem step_tariffs (guard : SplitGuard) (s : State) (op : Op) : (step guard s 
     simp only [step, create]
     split
     · rfl
-    · split <;> rfl
+    · split
+      · rfl
+      · split <;> rfl
   | update sid r =>
     simp only [step, update]
     split
